@@ -106,7 +106,9 @@ func (k *KVStore) Compaction() (bool, error) {
 				if len(k.tables) == 1 {
 					break
 				}
-				delete(k.tablesByCoefficient, t.Coefficient())
+				// A recycled table is not registered in tablesByCoefficient anymore,
+				// and Reset cleared its coefficient: deleting by that coefficient
+				// would unregister the live table with coefficient zero.
 				k.tables = append(k.tables[:i], k.tables[i+1:]...)
 				i--
 			}
